@@ -7,6 +7,7 @@ import (
 	"go/types"
 	"os"
 	"strings"
+	"sync"
 
 	"golang.org/x/tools/go/packages"
 	"golang.org/x/tools/go/ssa"
@@ -21,6 +22,7 @@ type Program struct {
 	byPath   map[string]*ssa.Package
 	rtypePtr types.Type
 	srcCache map[string][]byte
+	srcMu    sync.Mutex
 	Overlay  map[string][]byte
 }
 
@@ -89,6 +91,8 @@ func (p *Program) SrcHash(fn *ssa.Function) string {
 }
 
 func (p *Program) source(file string) []byte {
+	p.srcMu.Lock()
+	defer p.srcMu.Unlock()
 	if b, ok := p.srcCache[file]; ok {
 		return b
 	}
